@@ -201,3 +201,41 @@ def race_replay(ctx, d, replay):
             break
     print("replayed %s: %s" % (replay["race_line"], "VIOLATED (implementation disagrees with the model)" if hits else "no disagreement in 25 attempts"))
     return 1 if hits else 0
+
+
+# ----------------------------------------------------------------------------- real clock, in-process
+
+def realclock_sample(ctx, d, pid, cases, mode="handle", gomaxprocs=None, tag="rc", timeout=600):
+    """cases through `harness memx <mode>` built WITHOUT faketime (real scheduler), with the given
+    GOMAXPROCS (None = all CPUs), replayed by the model.  Returns (failing-or-None, coverage)."""
+    ok, log = lib.ensure_harness("harness")
+    if not ok:
+        return dict(kind="tie-broken", what="real-clock harness build failed: " + log[-2000:]), {}
+    prog, out, ver = d / (tag + ".prog"), d / (tag + ".trace"), d / (tag + ".verdict")
+    prog.write_text("".join(c.text() for c in cases))
+    for f in (out, ver):
+        if f.exists():
+            f.unlink()
+    env = {"GOMAXPROCS": str(gomaxprocs)} if gomaxprocs else {}
+    rc, log = lib.sh("%s memx %s %s %s %s" % (lib.BUILD / "harness", prog, out, d, mode), cwd=d, timeout=timeout, extra_env=env)
+    label = "%s_gomaxprocs_%s" % (mode, gomaxprocs or "all")
+    if rc != 0 or not out.exists():
+        return dict(kind="realclock-harness-died", detail="rc=%s %s" % (rc, log[-1500:])), {}
+    rc, log = lib.sh("%s mem %s %s" % (lib.BUILD / "modelrun", out, ver), cwd=d, timeout=timeout)
+    v = ver.read_text().splitlines() if ver.exists() else []
+    mm = memlib.mismatching(v)
+    trace = out.read_text()
+    cov = {"realclock_%s_cases" % label: len(cases), "realclock_%s_steps" % label: sum(1 for l in trace.splitlines() if l.startswith("S ")),
+           "realclock_%s_closes" % label: sum(1 for l in trace.splitlines() if l.startswith("X "))}
+    if rc != 0:
+        return dict(kind="modelrun-failed", detail=log[-1500:]), cov
+    if not mm:
+        return None, cov
+    name = sorted(mm)[0]
+    c = [x for x in cases if x.name == name][0]
+    lines = c.text().splitlines()
+    failing = dict(kind="impl-vs-model-realclock", detail=mm[name], case_lines=lines, readable=memlib.decode_case(lines)[:80],
+                   mode=mode, gomaxprocs=gomaxprocs or "all", n_mismatching=len(mm),
+                   note="memx %s on the real clock (harness built without faketime); --replay runs the case through the "
+                        "virtual-clock harness in the check's own mode" % mode)
+    return failing, cov
